@@ -44,6 +44,8 @@ TRANSPARENT = {
     "anyhow::__private::must_use": 0,
 }
 
+NOT_CALLEES = {"anyhow::__private::not", "core::ops::bit::Not::not"}
+
 # adapters that preserve the success payload: ok(adapter(x, ..)) == ok(x)
 OK_PRESERVING = {
     "core::option::Option::<T>::ok_or",
@@ -233,6 +235,8 @@ class Prov:
         args = tuple(self.operand_term(a) for a in node["args"])
         if callee in self.transparent and len(args) > self.transparent[callee]:
             return args[self.transparent[callee]]
+        if callee in NOT_CALLEES and len(args) == 1 and node["dest"]["ty"] == "bool":
+            return ("unop", "Not", args[0])       # `ensure!(cond)` tests `anyhow::__private::not(cond)`
         return ("call", callee, bb, args)
 
     def operand_term(self, o):
